@@ -190,6 +190,7 @@ type group struct {
 	fals       []fals
 	falsOf     string // the node method whose answer is falsified ("" = the request's own method)
 	skipHonest bool   // the honest calls of this request are made by a sibling group
+	Never      bool   `json:"item_never_committed,omitempty"`
 	AtTip      bool   `json:"repeat_at_tip,omitempty"` // the node starts lying only after the light client has reached its latest height
 }
 
@@ -244,6 +245,11 @@ func (cc *chainCtx) buildGroups(c *verdict.Ctx, r *rand.Rand, nTargets int, gidx
 	var gs []*group
 	hs := cc.heights()
 	add := func(rq request, f []fals, falsOf string) {
+		if falsOf == "" {
+			f = append(f, substFals(rq.Method)...)
+		} else {
+			f = append(f, substNodeFals(falsOf)...)
+		}
 		g := &group{Idx: *gidx, Req: rq, fals: f, falsOf: falsOf}
 		*gidx++
 		g.TrustH = hs[r.Intn(len(hs))]
@@ -277,6 +283,16 @@ func (cc *chainCtx) buildGroups(c *verdict.Ctx, r *rand.Rand, nTargets int, gidx
 			add(request{Method: "TxSearch", Query: fmt.Sprintf("tx.height=%d", h)}, txPositionFalsSearch(-1), "")
 			break
 		}
+	}
+	// items that were never committed: the honest node has nothing to say; a lying node answers with the
+	// record of a committed item (substFals).  No honest rounds: there is no honest answer to relay.
+	for k := 0; k < 2; k++ {
+		nx := ref.Sha256([]byte(fmt.Sprintf("never-committed-%d-%d", cc.spec.Idx, k)))
+		add(request{Method: "Tx", HashHex: hex.EncodeToString(nx), hash: nx}, nil, "")
+		gs[len(gs)-1].skipHonest, gs[len(gs)-1].Never = true, true
+		nb := ref.Sha256([]byte(fmt.Sprintf("never-a-block-%d-%d", cc.spec.Idx, k)))
+		add(request{Method: "BlockByHash", HashHex: hex.EncodeToString(nb), hash: nb}, nil, "")
+		gs[len(gs)-1].skipHonest, gs[len(gs)-1].Never = true, true
 	}
 	for t := 0; t < nTargets; t++ {
 		h := hs[r.Intn(len(hs))]
@@ -457,6 +473,11 @@ func (cc *chainCtx) runGroup(c *verdict.Ctx, g *group) {
 				wit("none (honest)", true, nil, j, resp, tag))
 			continue
 		}
+		if ok, _, why := cc.answers(&g.Req, resp); !ok {
+			c.Violation(lower(m)+"-honest-node-answer-not-what-was-asked", "against an honest node the verifying client returned another item than the one asked for: "+why,
+				wit("none (honest)", true, nil, judgement{Why: why}, resp, tag))
+			continue
+		}
 		if relayedKinds[m] {
 			if got := relayedJSON(resp); !bytes.Equal(got, warm.be.wire[m]) {
 				c.Violation(lower(m)+"-honest-answer-altered", "the verifying client returned something else than the node's answer",
@@ -479,7 +500,12 @@ func (cc *chainCtx) runGroup(c *verdict.Ctx, g *group) {
 		fseed := c.SubSeed(fmt.Sprintf("fals-%d", g.Idx), fi)
 		fr := rand.New(rand.NewSource(fseed))
 		// the lie is a function of the honest answer: the same answer asked twice is falsified the same way
-		mutate := func(resp interface{}) bool { return f.Apply(rand.New(rand.NewSource(fseed+1)), cc, resp) }
+		mutate := func(resp interface{}) bool {
+			if f.Class == clsSubst || f.Class == clsRelabel {
+				return f.Apply(rand.New(rand.NewSource(fseed+1)), cc, reqResp{&g.Req, resp})
+			}
+			return f.Apply(rand.New(rand.NewSource(fseed+1)), cc, resp)
+		}
 		var v *verifier
 		useWarm := false
 		if g.falsOf != "" {
@@ -583,12 +609,29 @@ func (cc *chainCtx) runGroup(c *verdict.Ctx, g *group) {
 			c.Count("not_claimed.commit_relayed_with_an_invalid_signature_beyond_two_thirds", 1)
 		}
 		if j.OK {
+			// true of the chain: but is it the item that was asked for?
+			if ok, item, why := cc.answers(&g.Req, resp); !ok {
+				c.Count("verdict."+m+".RELAYED-OTHER-ITEM", 1)
+				key := lower(m) + "-relays-other-" + item + "-than-requested"
+				if m == "TxSearch" {
+					key = "txsearch-relays-results-unverified"
+				}
+				if g.AtTip {
+					key += "-at-tip"
+				}
+				c.Violation(key, fmt.Sprintf("%s relayed, without error, the genuine record of another item than the one asked for (%s): %s", m, f.Name, why),
+					wit(f.Name, useWarm, nil, judgement{Why: why}, resp, ""))
+				continue
+			}
 			c.Count("verdict."+m+".relayed-true", 1)
 			c.Count("relayed_true."+m+"."+fclass, 1)
 			continue
 		}
 		c.Count("verdict."+m+".RELAYED-FALSIFIED", 1)
 		class := f.Class
+		if class == clsSubst || class == clsRelabel || class == clsNodeSubst || class == clsNodeRelabel {
+			class = j.Class
+		}
 		if class == "not-claimed" || class == "other-genuine" || g.falsOf != "" {
 			class = j.Class
 		}
@@ -748,7 +791,7 @@ func (cc *chainCtx) serverSide(c *verdict.Ctx) {
 // ---------------------------------------------------------------- Run
 
 var notClaimed = []string{
-	"that the relayed response answers the question asked (a genuine block / tx / value of another height, hash or key is consistent with a verified header)",
+	"which item a request WITHOUT a height is about (\"the latest\"): a genuine record of any height is accepted there",
 	"Tx / TxSearch with prove=false (relayed unverified by design)",
 	"ResultTx.tx_result (code, data, log, events): not covered by the inclusion proof",
 	"DeliverTx log, info, codespace, events; begin/end-block events; validator_updates; consensus_param_updates in BlockResults (LastResultsHash covers code, data, gas_wanted, gas_used only)",
